@@ -273,6 +273,17 @@ func c06Settle(v *vCore) (*c06State, int, string) {
 				hard = true
 			}
 		}
+		// a revocation deletes the lease record, then the index entry, then forgets the lease: an index
+		// entry without record whose lease id is still tracked is a revocation in flight
+		have := map[string]bool{}
+		for _, l := range s.Leases {
+			have[l.LeaseID] = true
+		}
+		for _, lid := range s.Index {
+			if !have[lid] && c06Tracked(v, lid) {
+				hard = true
+			}
+		}
 		pendingTok := false
 		for k, te := range s.Tokens {
 			if te.NumUses < 0 && !c06Stuck[v][k] {
